@@ -13,7 +13,7 @@ import ast
 from ..cfg import cfg_of
 from ..flow import flow_of, path_of
 from ..loader import FUNC, AnalysisError, dotted, last_name, loc, short, walk_local, enclosing_stmt
-from ..util import ASE, REPEX, SETUP, TIS, is_self_attr, kwarg, last_key
+from ..util import ASE, LAMMPS, REPEX, SETUP, TIS, TURTLE, is_self_attr, kwarg, last_key
 from ..variants import B, K
 
 EXPLANATION = (
@@ -391,6 +391,75 @@ def r113(ctx):
     c09.r91(px, moves)
 
 
+def _energy_shape(fl, f, e, at, depth=0):
+    """Normalised construction of an energy array: text of its defining expression(s) with the
+    kinetic/potential specific tokens replaced by one placeholder."""
+    import re
+    if depth > 3:
+        return "?"
+    if isinstance(e, ast.Name):
+        defs = [d for d, _ in fl.rd(e.id, at) if d.kind in ("assign", "ann") and isinstance(getattr(d, "value", None), ast.AST)]
+        parts = []
+        for d in defs:
+            v = d.value
+            if isinstance(v, (ast.List,)) and not v.elts:
+                # list filled by append(...)
+                apps = [c for c in walk_local(f) if isinstance(c, ast.Call) and isinstance(c.func, ast.Attribute) and c.func.attr == "append" and isinstance(c.func.value, ast.Name) and c.func.value.id == e.id and c.args]
+                parts.append("[" + ",".join(sorted(_energy_shape(fl, f, c.args[0], fl.cfg.node_of(c), depth + 1) for c in apps)) + "]")
+            else:
+                parts.append(_energy_shape(fl, f, v, d.at, depth + 1))
+        if parts:
+            return "|".join(sorted(set(parts)))
+        return "E"
+    # structural shape: scaling (BinOp), slicing and array wrappers are kept; the leaf source
+    # (a table lookup, an API call) is abstracted to S
+    if isinstance(e, ast.BinOp):
+        return f"({_energy_shape(fl, f, e.left, at, depth)} {type(e.op).__name__} {_energy_shape(fl, f, e.right, at, depth)})"
+    if isinstance(e, ast.UnaryOp):
+        return f"{type(e.op).__name__}({_energy_shape(fl, f, e.operand, at, depth)})"
+    if isinstance(e, ast.Subscript) and isinstance(e.slice, ast.Slice):
+        return _energy_shape(fl, f, e.value, at, depth) + "[" + ast.unparse(e.slice) + "]"
+    if isinstance(e, ast.Call) and last_name(e) in ("array", "asarray", "list", "float") and e.args:
+        return f"{last_name(e)}({_energy_shape(fl, f, e.args[0], at, depth)})"
+    if isinstance(e, ast.Constant):
+        return repr(e.value)
+    if isinstance(e, (ast.Subscript, ast.Call)):
+        return "S"
+    if isinstance(e, ast.Attribute):
+        return "S" if re.search(r"(ekin|vpot|kin|pot|energy)", ast.unparse(e)) else ast.unparse(e)
+    return ast.unparse(e)
+
+
+def r117(ctx):
+    """The two energies stored with a path are produced alike: in every engine the arguments of
+    path.update_energies(ekin, vpot) have the same construction up to the kinetic/potential key
+    (same scaling by the particle number, same slicing, same source table). QuanTIS compares
+    potential energies of frames across engines and paths: a per-particle value next to a
+    total one changes the acceptance probability."""
+    rid = "R-11.7"
+    from ..util import CP2K, GROMACS, LAMMPS, TURTLE
+    n = 0
+    for rel in (GROMACS, CP2K, LAMMPS, ASE, TURTLE):
+        for m, q, f in ctx.tree.all_funcs([rel]):
+            if f.name != "_propagate_from":
+                continue
+            calls = [c for c in walk_local(f) if isinstance(c, ast.Call) and isinstance(c.func, ast.Attribute) and c.func.attr == "update_energies" and len(c.args) == 2]
+            if not calls:
+                ctx.bad(rid, f, f"{q} stores no energies with the path", construct=f"{q}: no update_energies")
+                continue
+            fl = flow_of(f)
+            for c in calls:
+                n += 1
+                at = fl.cfg.node_of(c)
+                a, b = (_energy_shape(fl, f, x, at) for x in c.args)
+                if a == b:
+                    ctx.ok(rid, c, f"{q}: kinetic and potential energies are built alike ({a[:60]})")
+                else:
+                    ctx.bad(rid, c, f"{q}: the kinetic energy is built as `{a[:70]}` but the potential energy as `{b[:70]}`: one of them is scaled / sliced / sourced differently (per particle vs total), so the potential energies that the QuanTIS rule compares are not the system's", construct=f"{q}: update_energies argument shapes differ")
+    if n < 5:
+        raise AnalysisError(f"R-11.7: only {n} update_energies calls found in the engines (expected 5)")
+
+
 def _engine_level(fl, e, at, depth=0):
     """-1 / 0 when e resolves to engines[-1][0] ([0-] level) / engines[0][0] ([0+] level)."""
     if depth > 6:
@@ -504,6 +573,7 @@ def r116(ctx):
 def run(ctx):
     ctx.rule("R-11.4", "QuanTIS acceptance: each energy difference is weighted with the beta of the engine of its own level", floor=2)
     ctx.rule("R-11.5", "the engines' velocity-reversal codecs negate exactly the velocities (shared with C19 R-19.5): time reversal used by the zero swap is an involution", floor=5)
+    ctx.rule("R-11.7", "the kinetic and the potential energy stored with a path are constructed alike in every engine (scaling, slicing, source table) - the potential energies QuanTIS compares are system totals", floor=5)
     ctx.rule("R-11.6", "shape of the QuanTIS rule: pacc = min(1, exp(beta0*dV0 - beta1*dV1)); rejected exactly when the job-stream draw exceeds pacc", floor=3)
     ctx.rule("R-11.1", "lambda_-1 early rejection precedes any engine call; quantis + lambda_-1 excluded by configuration", floor=3)
     ctx.rule("R-11.2", "the crossing frames are taken from the right ends of the old paths, as copies, on the right side of the propagated segments", floor=5)
@@ -513,12 +583,15 @@ def run(ctx):
     ctx.attempt(r113, ctx)
     ctx.attempt(r114, ctx)
     ctx.attempt(r116, ctx)
+    ctx.attempt(r117, ctx)
     from . import c19
     from .shared import RuleProxy
     ctx.attempt(c19.r195, RuleProxy(ctx, "R-11.5", " (a zero swap re-uses stored velocities in the opposite time direction: swapping twice would not restore the order-parameter sequence)"))
 
 
 VARIANTS = [
+    B("c11-turtle-vpot-per-particle", TURTLE, "        vpot = np.array(thermo[\"vpot\"]) * tmd_system.particles.npart", "        vpot = np.array(thermo[\"vpot\"])", "R-11.7", control=True, why="seeded C11_d"),
+    B("c11-lammps-vpot-unsliced", LAMMPS, "        path.update_energies(ekin[:end], vpot[:end])", "        path.update_energies(ekin[:end], vpot)", "R-11.7"),
     B("c11-quantis-exponent-sum", TIS, "    pacc = min(1.0, np.exp(deltaV0 * engine0.beta - deltaV1 * engine1.beta))", "    pacc = min(1.0, np.exp(deltaV0 * engine0.beta + deltaV1 * engine1.beta))", "R-11.6", control=True),
     B("c11-quantis-max", TIS, "    pacc = min(1.0, np.exp(deltaV0 * engine0.beta - deltaV1 * engine1.beta))", "    pacc = max(1.0, np.exp(deltaV0 * engine0.beta - deltaV1 * engine1.beta))", "R-11.6"),
     B("c11-quantis-terms-exchanged", TIS, "    pacc = min(1.0, np.exp(deltaV0 * engine0.beta - deltaV1 * engine1.beta))", "    pacc = min(1.0, np.exp(deltaV1 * engine1.beta - deltaV0 * engine0.beta))", "R-11.6"),
